@@ -1,4 +1,5 @@
 import logging
+import types
 import numpy as np
 import numba
 
@@ -169,9 +170,25 @@ def parallelize(func):
     def wrapper(*args, **kwargs):
         use_parallel = config.NUM_THREADS > 1
         if use_parallel not in _compiled:
+            target = func
+            if use_parallel:
+                # numba's on-disk cache is indexed by the function's qualified
+                # name and argument types, not by the ``parallel`` flag. Give
+                # the parallel variant its own name so that the two variants do
+                # not load each other's binary from the cache.
+                target = types.FunctionType(
+                    func.__code__,
+                    func.__globals__,
+                    func.__name__,
+                    func.__defaults__,
+                    func.__closure__,
+                )
+                target.__module__ = func.__module__
+                target.__doc__ = func.__doc__
+                target.__qualname__ = func.__qualname__ + "__parallel"
             _compiled[use_parallel] = numba.jit(
                 nopython=True, parallel=use_parallel, cache=True
-            )(func)
+            )(target)
         return _compiled[use_parallel](*args, **kwargs)
 
     return wrapper
